@@ -480,13 +480,61 @@ Qed.
 Theorem olen_ok_bounds : forall c osp olen,
   1 <= c_max_len c -> olen_ok c osp olen = true -> 1 <= olen <= c_max_len c.
 Proof.
-  intros c osp olen H Hok. unfold olen_ok in Hok.
-  destruct (if osp >? c_period c then (osp * c_age_n c, 1000000 * c_age_d c)
-            else (c_period c * c_age_n c, osp * c_age_d c)) as [a b].
+  intros c osp olen H Hok. unfold olen_ok, doc_len in Hok.
+  destruct (len_quot c osp) as [a b]. cbn [fst snd] in Hok.
   apply orb_true_iff in Hok. destruct Hok as [Hok|Hok]; [apply orb_true_iff in Hok; destruct Hok as [Hok|Hok]|].
   - apply Z.eqb_eq in Hok. rewrite Hok. apply clamp_len_bounds; auto.
   - apply andb_true_iff in Hok. destruct Hok as [_ Hok]. apply Z.eqb_eq in Hok. rewrite Hok. apply clamp_len_bounds; auto.
   - apply andb_true_iff in Hok. destruct Hok as [_ Hok]. apply Z.eqb_eq in Hok. rewrite Hok. apply clamp_len_bounds; auto.
+Qed.
+
+(* unless the exact quotient is within 1e-9 of an integer, only the documented capacity is accepted *)
+Theorem olen_ok_is_documented : forall c osp olen,
+  olen_ok c osp olen = true ->
+  let a := fst (len_quot c osp) in let b := snd (len_quot c osp) in
+  a < (a mod b) * 1000000000 -> a < (b - a mod b) * 1000000000 ->
+  olen = doc_len c osp.
+Proof.
+  intros c osp olen Hok a b H1 H2. unfold olen_ok in Hok. subst a b.
+  destruct (len_quot c osp) as [a b]. cbn [fst snd] in *.
+  apply orb_true_iff in Hok. destruct Hok as [Hok|Hok]; [apply orb_true_iff in Hok; destruct Hok as [Hok|Hok]|].
+  - apply Z.eqb_eq in Hok. exact Hok.
+  - apply andb_true_iff in Hok. destruct Hok as [Hc _]. lia.
+  - apply andb_true_iff in Hok. destruct Hok as [Hc _]. lia.
+Qed.
+
+Lemma ceil_div_scale : forall p n d, 0 < p -> 0 < d -> ceil_div (p * n) (p * d) = ceil_div n d.
+Proof.
+  intros p n d Hp Hd. unfold ceil_div.
+  rewrite Z.mul_mod_distr_l by lia. rewrite Z.div_mul_cancel_l by lia.
+  destruct (n mod d =? 0) eqn:E.
+  - assert (n mod d = 0) as -> by lia. rewrite Z.mul_0_r. reflexivity.
+  - assert (p * (n mod d) =? 0 = false) as -> by nia. reflexivity.
+Qed.
+
+(* The boundary between the two formulas: an input period EQUAL to the resampling period is not up-sampling;
+   the documented capacity there is ceil(max_age) (clamped), whatever the period -- not ceil(period_s*max_age). *)
+Theorem doc_len_equal_period : forall c,
+  0 < c_period c -> 0 < c_age_d c ->
+  doc_len c (c_period c) = clamp_len c (ceil_div (c_age_n c) (c_age_d c)).
+Proof.
+  intros c Hp Hd. unfold doc_len, len_quot.
+  assert (c_period c >? c_period c = false) as -> by lia. cbn [fst snd].
+  rewrite ceil_div_scale by lia. reflexivity.
+Qed.
+
+Corollary doc_len_equal_period_integral_age : forall c,
+  0 < c_period c -> c_age_d c = 1 -> doc_len c (c_period c) = clamp_len c (c_age_n c).
+Proof.
+  intros c Hp Hd. rewrite doc_len_equal_period by lia. rewrite Hd. unfold ceil_div.
+  rewrite Z.mod_1_r, Z.div_1_r. reflexivity.
+Qed.
+
+(* strictly slower input: the up-sampling formula ceil(sp_seconds * max_age) *)
+Theorem doc_len_upsampling : forall c osp,
+  c_period c < osp -> doc_len c osp = clamp_len c (ceil_div (osp * c_age_n c) (1000000 * c_age_d c)).
+Proof.
+  intros c osp H. unfold doc_len, len_quot. assert (osp >? c_period c = true) as -> by lia. reflexivity.
 Qed.
 
 (* the accepted estimate is the quotient (T - start)/received within one microsecond *)
